@@ -37,8 +37,11 @@ def m_hcmd_response(I, c, args, fr):
     o = deref(args[0])
     if not isinstance(o, HCmd):
         raise Unsupported('Command::response on %r' % (o,))
+    if isinstance(I.world, list):
+        I.world.append(('response', o.k, args[1]))
+    if getattr(o, 'nofail', False):
+        return ok(Tup([o.k, args[1]]))
     fail = I.ctx.fresh_bool('resp%d_fails' % o.k)
-    I.world.append(('response', o.k, args[1]))
     if I.ctx.decide(fail):
         return err(Adt('TypedResponseError', None, 0, [str_ref('f'), Adt('ErrorKind', 'Missing', 0, [])], ['field', 'kind']))
     return ok(Tup([o.k, args[1]]))
@@ -60,6 +63,12 @@ def instances(tier, seed):
         for n in ((1, 2, 3) if tier == 'quick' else (1, 2, 3, 4)):
             out.append({'kind': 'send', 'n': n, 'flav': flav})
         out.append({'kind': 'send', 'n': 1, 'flav': flav, 'single': True})
+    from props import clientgroup as CG
+    for sc in CG.instances_for(PROP, tier, seed):
+        out.append({'kind': 'client', 'scenario': sc})
+    for n in ((2, 3, 4) if tier == 'quick' else (2, 3, 4, 5, 6)):
+        out.append({'kind': 'wire', 'n': n, 'flav': 'sync'})
+        out.append({'kind': 'wire', 'n': n, 'flav': 'async'})
     for n in range(1, 9):
         out.append({'kind': 'tuple', 'n': n})
     for n in range(0, 5 if tier == 'quick' else 8):
@@ -70,9 +79,14 @@ def bounds(tier):
     return {'quick': 'raw lists of 1..4 commands built through add / command / extend / a mix, command bytes symbolic (2..3 bytes, no LF); '
                      'typed tuples of every arity 1..8 and vectors of 0..4 commands, each response symbolically succeeding or failing',
             'thorough': 'raw lists of 1..6 commands (same builders); tuples of arity 1..8; vectors of 0..7 commands'}[tier] + (
+            '; typed lists of 0, 2 and 3 commands through the real Client::command_list on the client engine (C01): 2..4 free scheduler steps, the empty list also on a connection that is closed by the peer at a symbolic step' +
+            '; replies to lists of 2..%d commands decoded by both real connections (8-byte buffer) and paired frame by frame' % (4 if tier == 'quick' else 6) +
             '; lists of 1..%d commands sent through Connection::send_list / AsyncConnection::send_list (and send) over a transport that accepts all / 1 / 5 bytes per write call' % (3 if tier == 'quick' else 4))
 
 def run_instance(payload):
+    if payload['kind'] == 'client':
+        from props import clientgroup as CG
+        return CG.run_for(PROP, payload['scenario'])
     P = engine.load_program()
     res = Result(str(payload))
     t0 = time.time()
@@ -80,6 +94,8 @@ def run_instance(payload):
         run_raw(P, res, payload)
     elif payload['kind'] == 'send':
         run_send(P, res, payload)
+    elif payload['kind'] == 'wire':
+        run_wire(P, res, payload)
     else:
         run_typed(P, res, payload)
     res.wall_s = time.time() - t0
@@ -202,6 +218,56 @@ def run_send(P, res, payload):
             res.samples.append({'sent': flav, 'max_write': mw, 'wire': model_bytes(m, out).decode('latin1')})
         res.take_stats(ctx.stats); ctx.stats.__init__()
 
+def run_wire(P, res, payload):
+    """end to end: the server's reply bytes to a list of n commands are decoded by the real connection (parser, ResponseBuilder) and the
+    resulting frames are handed to the typed list impl: response i must come from the frame the server produced for command i"""
+    from models_io import Transport, drive
+    from props.conn_common import T, set_cap
+    n = payload['n']; flav = payload['flav']
+    conn_ty = 'Connection' if flav == 'sync' else 'AsyncConnection'
+    def harness(I):
+        I.world = []
+        set_cap(I, 8)
+        body = b''
+        for k in range(n):
+            # command k answers with its id and (from the second command on) a second field, the command in the middle with nothing
+            body += (b'' if (n >= 3 and k == n // 2) else (b'id: %d\n' % k + (b'extra: %d\n' % k if k else b''))) + b'list_OK\n'
+        body += b'OK\n'
+        t = Transport(list(b'OK MPD 0.23.5\n' + body), cuts=[14], eof=True)
+        r = I.call_repo('mpd_protocol::connection::%s::<%s>::connect' % (conn_ty, T), [t])
+        if flav == 'async':
+            r = drive(I, r)
+        conn = ValLoc(r.fields[0])
+        x = I.call_repo('mpd_protocol::connection::%s::<%s>::receive' % (conn_ty, T), [Ref(conn)])
+        if flav == 'async':
+            x = drive(I, x)
+        if x.variant != 'Ok' or x.fields[0].variant != 'Some':
+            return None, None
+        resp = x.fields[0].fields[0]
+        frames = list(resp.field('frames').v)
+        return frames, resp.field('error').variant
+    for pr in explore(P, harness):
+        res.paths += 1
+        rec = {'kind': 'wire', 'n': n, 'flav': flav}
+        if pr.kind == 'panic':
+            res.violations.append({'what': 'decoding the list reply panics: ' + pr.error.msg, 'input': rec}); continue
+        frames, errv = pr.value
+        bad = None
+        if frames is None or errv != 'None' or len(frames) != n:
+            bad = 'the reply to %d commands is decoded into %s frames' % (n, None if frames is None else len(frames))
+        else:
+            for k, f in enumerate(frames):
+                fields = [(bytes(kk.b), bytes(vv.b)) for kk, vv in (e.fields[0].items for e in f.fields[0].fields[0].v if e.variant == 'Some')]
+                want = [] if (n >= 3 and k == n // 2) else ([(b'id', b'%d' % k)] + ([(b'extra', b'%d' % k)] if k else []))
+                if fields != want:
+                    bad = 'frame %d of the list reply holds %r, the server produced %r for command %d' % (k, fields, want, k); break
+        res.cls('wire n=%d' % min(n, 3), nontrivial=True)
+        if bad:
+            res.violations.append({'what': bad, 'input': rec})
+        if len(res.samples) < 1:
+            res.samples.append({'wire': flav, 'n': n, 'frames': None if frames is None else len(frames)})
+        res.take_stats(pr.ctx.stats); pr.ctx.stats.__init__()
+
 def run_typed(P, res, payload):
     n = payload['n']; kind = payload['kind']
     def harness(I):
@@ -256,6 +322,24 @@ def run_typed(P, res, payload):
 # ---------------------------------------------------------------------------- native replay
 def replay(rec):
     inp = rec.get('input') or rec
+    if 'scenario' in inp:
+        from props import clientgroup as CG
+        return CG.replay_for(PROP, rec)
+    if inp['kind'] == 'wire':
+        n = inp['n']
+        body = b''
+        for k in range(n):
+            body += (b'' if (n >= 3 and k == n // 2) else (b'id: %d\n' % k + (b'extra: %d\n' % k if k else b''))) + b'list_OK\n'
+        body += b'OK\n'
+        out = run_replay(['recv', inp['flav'], hexs(b'OK MPD 0.23.5\n' + body), '1', '14'], small=True)
+        if 'panic' in out:
+            return True, 'native run panics'
+        frames = out.get('frame', [])
+        want = []
+        for k in range(n):
+            fs = [] if (n >= 3 and k == n // 2) else ([(b'id', b'%d' % k)] + ([(b'extra', b'%d' % k)] if k else []))
+            want.append(','.join('%s:%s' % (hexs(a), hexs(b)) for a, b in fs) + '|none')
+        return frames != want, 'native frames %s, the server produced %s' % (frames, want)
     if inp['kind'] == 'send':
         n = inp['n']
         names = [b'c' + bytes([97 + k]) for k in range(n)]
@@ -297,13 +381,13 @@ def replay(rec):
     return (wire != want or not okp), 'native wire %r pairs %s' % (wire, pairs)
 
 DESCR = {}
-REQUIRED_CLASSES = ['sent n=1', 'sent n=2', 'raw n=1', 'raw n=2', 'raw n>=3', 'tuple all ok', 'vec all ok', 'vec error propagated']
+REQUIRED_CLASSES = ['schedule with request', 'wire n=2', 'wire n=3', 'sent n=1', 'sent n=2', 'raw n=1', 'raw n=2', 'raw n>=3', 'tuple all ok', 'vec all ok', 'vec error propagated']
 EXPLANATION = ('Bounded symbolic execution of the real MIR of list building/rendering (command bytes symbolic; the rendered stream is compared '
                'with the specified framing by z3) and of the typed list impls for Vec<C> and all eight tuple arities with a harness command type '
                'whose response conversions succeed or fail symbolically (pairing command k <-> frame k asserted on every path); '
                'violations are replayed natively')
 ASSUMPTIONS = ['frame count equals command count (other counts are the subject of C12)',
                'the harness command type stands for any Command impl: request c<k>, response = (k, frame)',
-               'Client::command_list\'s short-circuit for an empty list is covered with the client properties (C01 engine); here: command_list() == None and responses(vec![]) == Ok(empty)',
+               'client scenarios: the models and scheduler of the client properties (see C01)',
                'library models: Vec push/pop/len/iter/into_iter/extend/with_capacity, Iterator map/next/zip/sum, BytesMut with_capacity/put_slice/put_u8, Option/Result Try']
 RULE = 'one evaluation = one feasible path of one instance (list size x builder, or typed list shape); non-trivial = two or more commands or an error path'
